@@ -5,8 +5,8 @@
    symbolic_test_terminates bounds the interleaved reachability of symbolic_attractor_test (with the progress
    fix 2159c02) for every heuristic tape; noforce_can_stall is the formal record of the repaired defect: without
    the fix a tape that always declines makes the loop run forever on a 3-variable network.
-   PARTIAL: the simulation minification loops and the block / SCC strategies are bounded by the back-edge budget
-   and the watchdog of the run only.
+   The candidate pipeline's loops (greedy flips, simulation rounds) and the block expansion have explicit bounds too.
+   PARTIAL: the SCC strategy and the attractor-seed expansion are bounded by the back-edge budget and the watchdog only.
 
    This file contains only restatements closed by `exact` (statements produced by Coq's own
    `Check` of the library lemma) plus non-vacuity Examples, each followed by Print Assumptions. *)
@@ -14,7 +14,7 @@ From Coq Require Import List Bool Arith NArith Lia Relations Permutation.
 Import ListNotations.
 From BB Require Import BN Brute SpaceFacts TrapFacts PercolateFacts AttractorFacts Diagram Invariants Checks Filter
   Strict PetriNet Control Meta FilterFacts PetriNetFacts TrappistFacts DiagramStruct DiagramSem1 DiagramCache
-  DiagramDepth DiagramComplete Termination ControlFacts MetaFacts Candidates StrictFacts MinExpandFacts CandidatesFacts SymbolicTest SymbolicTestFacts Signed ReductionFacts ControlFacts2 Main.
+  DiagramDepth DiagramComplete Termination ControlFacts MetaFacts Candidates StrictFacts MinExpandFacts CandidatesFacts SymbolicTest SymbolicTestFacts Signed ReductionFacts ControlFacts2 Main Blocks BlocksFacts ObsFacts OwnerFacts CandidatesTerm.
 
 Theorem C13_size_bound : forall (N : net) (d : sd), SWF N d -> size d <= max_nodes N.
 Proof. exact size_bound. Qed.
@@ -48,6 +48,19 @@ Proof. exact strict_loop_fuel_enough. Qed.
 Theorem C13_reach_list_complete : forall (N : net) (s t : state), wf_state N s -> reach N s t -> In t (reach_list N s).
 Proof. exact reach_list_complete. Qed.
 
+Theorem C13_block_expansion_terminates : forall (fuel : nat) (N : net) (cfg : config) (d : sd) (maa opt : bool) (sz : option nat) (tape : list bool), SWF N d -> max_nodes N + 2 <= fuel -> snd (expand_block fuel N cfg d maa opt sz tape) <> RFuel.
+Proof. exact expand_block_terminates. Qed.
+
+(* candidate pipeline: greedy flips *)
+Theorem C13_greedy_loop_terminates : forall (f1 f2 : nat) (st : pst) (pm : bool) (R : retained) (cands : list state), length cands < f1 -> length cands < f2 -> greedy_loop f1 st pm R cands = greedy_loop f2 st pm R cands.
+Proof. exact greedy_loop_fuel_irrelevant. Qed.
+
+Theorem C13_simulation_rounds_terminate : forall (r1 r2 : nat) (avoid : list space) (nfree : nat) (cfg : ccfg) (iters : nat) (cands : list state) (tp : simtape), 1 <= iters -> sim_bound cfg nfree iters cands <= r1 -> sim_bound cfg nfree iters cands <= r2 -> sim_rounds r1 avoid nfree cfg iters cands tp = sim_rounds r2 avoid nfree cfg iters cands tp.
+Proof. exact sim_rounds_fuel_irrelevant. Qed.
+
+Theorem C13_candidate_pipeline_terminates : forall (f1 f2 : nat) (N : net) (S0 : list (option bool)) (avoid : list space) (nfvs : list nat) (Rinit : retained) (cfg : ccfg) (greedy simulation : bool) (tape : list (list state)) (stp : simtape), (forall l : list state, In l tape -> length l <= 2 ^ length S0) -> let B := 2 ^ length S0 + c_budget cfg * nfree S0 + 4 in B <= f1 -> B <= f2 -> compute_candidates f1 N S0 avoid nfvs Rinit cfg greedy simulation tape stp = compute_candidates f2 N S0 avoid nfvs Rinit cfg greedy simulation tape stp.
+Proof. exact compute_candidates_fuel_irrelevant. Qed.
+
 Theorem C13_symbolic_test_terminates : forall (fuel : nat) (N : net) (S : space) (pivot : state) (avoid : list state) (bools : list bool) (orders : list (list nat)), trap_space N S -> in_space pivot S = true -> (forall a : state, In a avoid -> in_space a S = true) -> NoDup avoid -> symbolic_test_fuel S <= fuel -> symbolic_test fuel N S pivot avoid bools orders <> TFuel.
 Proof. exact symbolic_test_terminates. Qed.
 
@@ -68,6 +81,10 @@ Print Assumptions C13_run_terminates.
 Print Assumptions C13_raise_depth_fuel_irrelevant.
 Print Assumptions C13_strict_loop_fuel_enough.
 Print Assumptions C13_reach_list_complete.
+Print Assumptions C13_block_expansion_terminates.
+Print Assumptions C13_greedy_loop_terminates.
+Print Assumptions C13_simulation_rounds_terminate.
+Print Assumptions C13_candidate_pipeline_terminates.
 Print Assumptions C13_symbolic_test_terminates.
 Print Assumptions C13_unfixed_loop_can_stall.
 Print Assumptions C13_fixed_loop_answers_on_that_instance.
